@@ -1,5 +1,7 @@
 import ProbLogProofs.Properties.C01GroundFOSem
 import ProbLogProofs.Lemmas.GroundFOBridge
+import ProbLogProofs.Lemmas.GroundFOSpecOK
+import ProbLogProofs.Properties.C01GroundFOSpec
 /-!
 # C01 for the first-order grounder model against `Sem.wfm` of the Herbrand instantiation
 
@@ -66,5 +68,24 @@ theorem C01_groundFO_correct_truthFO_partial {P : Prog} {natoms : Nat} {ar : Pre
     have hlen : ar calls[i].pred = some a.length := by rw [hl]; exact har
     have := h2 a hfit hna
     simpa [Mspec, hlen, hin, Tspec] using this
+
+/-! ### the hypotheses are decidable and satisfiable: the program of `C01_groundFO_correct_example`
+
+`SpecOK` follows from the evaluation of `specOKb` (`Lemmas/GroundFOSpecOK.lean`), so the theorem applies to the
+example program for EVERY schedule, fuel and call history (not only the one evaluated in `C01GroundFOSpec.lean`). -/
+
+def exAr : List (Pred × Nat) := [(0, 1), (1, 2), (2, 1), (3, 2), (4, 0)]
+def exRk (a : Nat) : Nat := if a < 6 then 0 else if a < 12 then 1 else 2
+
+theorem exF2_specOK : SpecOK exF2 13 (lookup exAr) exRk := specOKb_sound (by decide +kernel)
+
+theorem C01_groundFO_correct_wfm_exF2 (sched : Sched) (fuel : Nat) (calls : List Call) (rss : List Results) (st' : St)
+    (h : groundAll exF2 sched fuel calls {} = .ok (rss, st')) (chosen : Array Bool) (i : Nat) (hc : i < calls.length)
+    (hr : i < rss.length) (har : lookup exAr calls[i].pred = some calls[i].args.length) :
+    (∀ r ∈ rss[i], inR 2 r.1 = true → ∀ ρ, Consistent st'.store ρ → Agree chosen st'.store ρ →
+      keyVal ρ r.2 = truthFO exF2 13 chosen (exF2.atomName calls[i].pred r.1)) ∧
+    (∀ a ∈ tuples 2 calls[i].args.length, Fits calls[i].args a → a ∉ rss[i].map (·.1) →
+      truthFO exF2 13 chosen (exF2.atomName calls[i].pred a) = false) :=
+  C01_groundFO_correct_truthFO_partial exF2_specOK sched fuel calls {} rfl rss st' h chosen i hc hr har
 
 end ProbLogProofs.C01GroundFO
